@@ -1269,7 +1269,13 @@ func (bc *Blockchain) resetStateInternal(height uint32, stage stateChangeStage) 
 		fallthrough
 	case transfersReset:
 		// there's nothing to do after that, so just continue with common operations
-		// and remove state reset stage in the end.
+		// and remove state reset stage in the end. State root module is initialized
+		// by ResetState above unless we've started from this stage after restart.
+		if stage == transfersReset {
+			if err = bc.stateRoot.Init(height); err != nil {
+				return fmt.Errorf("can't init MPT at height %d: %w", height, err)
+			}
+		}
 	default:
 		return fmt.Errorf("unknown state reset stage: %d", stage)
 	}
